@@ -99,8 +99,9 @@ Definition sdod (path prefix : bytes) : option bool :=
           end)
   end.
 
-(* fs.Readlink: what reaches the caller of a link whose target is t *)
-Definition readlink_buf (t : bytes) : bytes := firstn 256 t.
+(* fs.Readlink: what reaches the caller of a link whose target is t (the buffer is grown
+   until the target fits; before the repair this was [firstn 256 t]) *)
+Definition readlink_buf (t : bytes) : bytes := t.
 
 (* isLinkToLayer once the target is read; None = panic, Some None = not a link into the layers *)
 Definition link_to_layer (prefix target : bytes) : option (option (bytes * bytes)) :=
@@ -168,8 +169,9 @@ Fixpoint readdir_lstat {A} (o : nat -> option err) (i : nat) (l : list A) : opti
 
 Inductive step := Cont (m : umap) | Fail | Pan.
 
-(* what a failing Readdir(-1) of /proc/<pid>/fd does to the scan (fs/inuse.go:88-92) *)
-Definition fd_readdir_failed (m : umap) : step := Fail.
+(* what a failing Readdir(-1) of /proc/<pid>/fd does to the scan (fs/inuse.go:88-92):
+   the process is skipped (before the repair the whole scan failed: [Fail]) *)
+Definition fd_readdir_failed (m : umap) : step := Cont m.
 
 Definition anon : bytes := bs "[anon]".
 
